@@ -710,7 +710,8 @@ SeqBase(fam, ops) == [kind |-> "seq", fam |-> fam, ops |-> ops]
 SeqBases ==
     { SeqBase("cgls", [A |-> <<<<1, 0>>, <<1, 1>>>>, b |-> <<2, -1>>, x0 |-> <<0, 0>>, shift |-> 0, maxit |-> SeqCgBig, tol |-> SeqCgTight]),
       SeqBase("cgls", [A |-> <<<<1, -1>>, <<2, 1>>, <<0, 1>>>>, b |-> <<-1, 2, 1>>, x0 |-> <<1, -1>>, shift |-> 1, maxit |-> SeqCgBig, tol |-> SeqCgTight]),
-      SeqBase("cgls", [A |-> <<<<1, -1>>, <<0, 1>>>>, b |-> <<-1, 2>>, x0 |-> <<1, -1>>, shift |-> 1, maxit |-> 1, tol |-> 1]),
+      SeqBase("cgls", [A |-> <<<<1, -1>>, <<0, 1>>>>, b |-> <<-1, 2>>, x0 |-> <<1, -1>>, shift |-> 1, maxit |-> 1, tol |-> SeqCgTight]),
+      SeqBase("cgls", [A |-> <<<<0, 1>>, <<-1, 1>>>>, b |-> <<2, -1>>, x0 |-> <<1, -1>>, shift |-> 0, maxit |-> SeqCgBig, tol |-> 1]),
       SeqBase("pcgls", [A |-> <<<<1, 0>>, <<1, 1>>>>, b |-> <<2, -1>>, x0 |-> <<0, 0>>, P |-> <<<<1, 0>>, <<1, 1>>>>, shift |-> 0, maxit |-> SeqCgBig, tol |-> SeqCgTight]),
       SeqBase("pcgls", [A |-> <<<<1, -1>>, <<2, 1>>, <<0, 1>>>>, b |-> <<-1, 2, 1>>, x0 |-> <<1, -1>>, P |-> <<<<1, -2>>, <<0, 1>>>>, shift |-> 1, maxit |-> SeqCgBig, tol |-> SeqCgTight]),
       SeqBase("fista", [A |-> <<<<1, 1>>, <<0, 1>>>>, b |-> <<2, -1>>, x0 |-> <<3, -2>>, proximal |-> Rg("l1", One, "none", Zero, Zero, <<>>, <<>>),
@@ -726,8 +727,8 @@ SeqBases ==
       SeqBase("minimize", [func |-> SeqFn1, x0 |-> <<2, 1>>, gradfunc |-> FALSE, method |-> "default", kwargs |-> "default"]),
       SeqBase("minimize", [func |-> SeqFn2, x0 |-> <<0, 0>>, gradfunc |-> TRUE, method |-> "L-BFGS-B", kwargs |-> "maxiter"]),
       SeqBase("maximize", [func |-> SeqFn1, x0 |-> <<2, 1>>, gradfunc |-> TRUE, method |-> "default", kwargs |-> "default"]),
-      SeqBase("LS", [func |-> SeqFn1, x0 |-> <<0, 0>>, jacfun |-> TRUE, method |-> "trf", opt |-> "tight"]),
-      SeqBase("LS", [func |-> SeqFn2, x0 |-> <<2, 1>>, jacfun |-> FALSE, method |-> "lm", opt |-> "few"]) }
+      SeqBase("LS", [func |-> SeqFn1, x0 |-> <<0, 0>>, jacfun |-> TRUE, method |-> "trf", loss |-> "linear", tol |-> 9, maxit |-> 500]),
+      SeqBase("LS", [func |-> SeqFn2, x0 |-> <<2, 1>>, jacfun |-> FALSE, method |-> "lm", loss |-> "linear", tol |-> 3, maxit |-> 3]) }
 
 \* the public operands that can be reassigned (PCGLS keeps all of them in private attributes: Solve only)
 SeqFields(fam) ==
@@ -738,7 +739,7 @@ SeqFields(fam) ==
       [] fam = "L_BFGS_B" -> {"func", "x0", "gradfunc", "kwargs"}
       [] fam = "minimize" -> {"func", "x0", "gradfunc", "method", "kwargs"}
       [] fam = "maximize" -> {"x0", "method", "kwargs"}          \* func / gradfunc hold the NEGATED callables: not reassigned
-      [] fam = "LS"       -> {"func", "x0", "jacfun", "method", "opt"}
+      [] fam = "LS"       -> {"func", "x0", "jacfun", "method", "loss", "tol", "maxit"}    \* tol = 10^-tol
 
 IsWrapFam(fam) == fam \in {"L_BFGS_B", "minimize", "maximize", "LS"}
 
@@ -770,7 +771,9 @@ SeqPool(fam, o, f) ==
                [] f = "method"   -> IF fam = "LS" THEN MethodsOf("LS") ELSE {"default", "L-BFGS-B", "BFGS", "Nelder-Mead"}
                [] f = "kwargs"   -> IF fam = "L_BFGS_B" THEN {"tight", "default", "factr1", "factr12", "maxiter2", "bounds"}
                                     ELSE {"default", "tol", "maxiter"}
-               [] f = "opt"      -> {"tight", "loose", "few", "huber"})
+               [] f = "loss"     -> {"linear", "huber", "soft_l1"}
+               [] f = "tol"      -> {9, 3}
+               [] f = "maxit"    -> {500, 3})
 
 \* ---- what Solve returns ---------------------------------------------------------------------------------
 \* back-projected data A^T b of the linear solvers ({} for the others)
@@ -780,6 +783,14 @@ SeqBackProj(fam, o) == IF fam \in {"cgls", "pcgls", "fista"} THEN { QMV(MT(MR(o.
 FistaFix(o, c) ==
     LET A == MR(o.A)  G == F(QMM(MT(A), A))  t == o.stepsize
     IN { x \in Lat2(-3, 3) : ProxH(o.proximal, QVSub(x, QVScale(t, QVSub(QMV(G, x), c))), t) = x }
+
+\* the fixed point is the minimiser: it does not depend on the (admissible) step.  The lattice search for c = A^T b is
+\* therefore made ONCE per (A, b, regulariser) of the pools (constant table, one step), and SeqOptimality verifies the
+\* fixed-point identity of the point found for the step the object holds and for two more.
+FistaTable ==
+    F([A \in FistaAs |-> F([b \in FistaBs |-> F([rg \in FistaRegs |->
+          FistaFix([A |-> A, stepsize |-> Sixth, proximal |-> rg], QMV(MT(MR(A)), VR(b)))])])])
+FistaFixOps(o) == FistaTable[o.A][o.b][o.proximal]
 
 \* is the end point of a Solve on these operands specified?  (conjugate gradients: at least n = 2 iterations and a
 \* tight tolerance; fista / lm: enough iterations; the wrappers return whatever SciPy returns: the relation is
@@ -794,7 +805,7 @@ SeqSolveWith(fam, o, cc) ==
     CASE fam \in {"cgls", "pcgls"} ->
             LET A == MR(o.A) IN
             { QSolve(QMAdd(QMM(MT(A), A), QMScale(R(o.shift), MId(2))), c) : c \in cc }        \* full column rank: unique
-      [] fam = "fista" -> UNION { FistaFix(o, c) : c \in cc }
+      [] fam = "fista" -> IF cc = SeqBackProj(fam, o) THEN FistaFixOps(o) ELSE UNION { FistaFix(o, c) : c \in cc }
       [] fam = "lm"    -> LmStat(o.A)
       [] OTHER         -> { VR(o.func.c) }
 
@@ -804,7 +815,7 @@ SeqExpected(fam, o) == IF SeqSpecified(fam, o) THEN SeqSolveWith(fam, o, SeqBack
 \* a new objective keeps the derivative the object holds valid (gradfunc: only without one; LS: same Jacobian)
 SeqAdmissible(fam, f, o, o2) ==
     CASE fam = "fista" -> /\ RLe(QMul(o2.stepsize, FrobSq(MR(o2.A))), One)
-                          /\ FistaFix(o2, CHOOSE c \in SeqBackProj(fam, o2) : TRUE) # {}
+                          /\ FistaFixOps(o2) # {}
       [] fam \in {"L_BFGS_B", "minimize"} -> (f = "func" => ~o.gradfunc)
       [] fam = "LS" -> (f = "func" => o2.func.a = o.func.a /\ o2.func.obj = o.func.obj)
       [] OTHER -> TRUE
@@ -839,7 +850,8 @@ SetOp ==
     /\ UNCHANGED <<pb, ph>>
 
 \* ---- invariants -------------------------------------------------------------------------------------------
-SeqSolves == { i \in 1..Len(hist) : hist[i].act = "solve" }
+\* hist only grows and every reachable state is checked: it is enough to look at the operation made last
+SeqSolves == IF Len(hist) > 0 /\ hist[Len(hist)].act = "solve" THEN {Len(hist)} ELSE {}
 
 \* the end point expected from a Solve depends only on the operands the object holds at that moment
 SeqCurrentOperands ==
@@ -887,7 +899,6 @@ RegJson(rg) == [h |-> rg.h, lam |-> rg.lam, bform |-> rg.bform, lo |-> [i \in 1.
 SeqOpsJson(fam, o) ==
     CASE fam = "fista" -> [o EXCEPT !.proximal = RegJson(@)]
       [] fam \in {"L_BFGS_B", "minimize", "maximize"} -> [o EXCEPT !.kwargs = [name |-> @, kw |-> OptTable(fam)[@]]]
-      [] fam = "LS" -> [o EXCEPT !.opt = [name |-> @, kw |-> LsOpts[@]]]
       [] OTHER -> o
 
 EmitSeq ==
@@ -895,6 +906,7 @@ EmitSeq ==
         PrintT("@@CASE " \o ToJson([kind |-> "seq", fam |-> pb.fam, ops |-> SeqOpsJson(pb.fam, pb.ops),
                                     sense |-> IF pb.fam = "maximize" THEN -1 ELSE 1,
                                     info |-> IF IsWrapFam(pb.fam) THEN InfoMap(pb.fam) ELSE [none |-> "none"],
+                                    warn |-> IF pb.fam = "L_BFGS_B" THEN [wf \in 1..3 |-> WarnMap[wf - 1]] ELSE <<>>,
                                     events |-> [i \in 1..Len(hist) |->
                                                   [act |-> hist[i].act, field |-> hist[i].field, ops |-> SeqOpsJson(pb.fam, hist[i].ops),
                                                    exp |-> hist[i].exp, g0 |-> hist[i].g0]]]) \o " @@END")
